@@ -3,6 +3,7 @@ package sim
 // SyncView: the read view and the write set of one task, decoded once for all monitors.
 
 import (
+	apierrors "k8s.io/apimachinery/pkg/api/errors"
 	"encoding/json"
 
 	corev1 "k8s.io/api/core/v1"
@@ -134,6 +135,17 @@ func (t *Task) View() *SyncView {
 			v.Settings = append(v.Settings, o)
 		}
 	}
+	readFailed := false
+	for _, c := range t.Calls {
+		if (c.Verb == "get" || c.Verb == "list") && c.Err != nil && !apierrors.IsNotFound(c.Err) {
+			readFailed = true
+		}
+	}
+	if t.Ctrl == CtrlERS && len(v.PodCreates)+len(v.PodDeletes) > 0 && readFailed && v.PodsRead && t.client != nil && !t.client.direct {
+		// one of several pod reads failed (e.g. the pods of the old DaemonSet): the others are not the whole picture
+		v.PodsRead = false
+		v.Blind = true
+	}
 	if t.Ctrl == CtrlERS && len(v.PodCreates)+len(v.PodDeletes) > 0 && (!v.NodesRead || !v.PodsRead) && t.client != nil && !t.client.direct {
 		st := t.client.sim.Store
 		v.Blind = true
@@ -150,6 +162,14 @@ func (t *Task) View() *SyncView {
 				if p := podOfCall(c); p != nil && !seenPod[p.Namespace+"/"+p.Name] {
 					seenPod[p.Namespace+"/"+p.Name] = true
 					v.Pods = append(v.Pods, p)
+				}
+			}
+			for _, c := range v.PodCreates {
+				// what the sync itself created is not part of what it could have read
+				if c.Out != nil {
+					if p := podOfCall(c); p != nil {
+						seenPod[p.Namespace+"/"+p.Name] = true
+					}
 				}
 			}
 			for _, p := range st.Pods() {
